@@ -759,13 +759,23 @@ func c20Spaces(r *vrt.R) []c20Space {
 			}
 		}})
 	if r.Thorough() {
-		sp = append(sp, c20Space{fmt.Sprintf("B4: every chain of 4 Location forms (%d forms), status 302, POST, Client.DoRedirects max 5", nl),
+		// B4 leaves out the forms that end a chain with a URL error or an empty host and near-duplicates of kept forms.
+		skip := map[string]bool{"pct25-suffix": true, "pct25-sub": true, "pct2e": true, "backslash-at": true, "empty-host": true, "triple-slash": true,
+			"query-only": true, "rel-dotdot": true, "userinfo-colon-lookalike": true, "dot-other": true, "upper-other": true, "ipv6-port": true, "hash-at": true, "no-slashes": true}
+		var l4 []string
+		for _, l := range c20Locs {
+			if !skip[l.Name] {
+				l4 = append(l4, l.Loc)
+			}
+		}
+		n4 := len(l4)
+		sp = append(sp, c20Space{fmt.Sprintf("B4: every chain of 4 Location forms (%d forms: all but %d that end the chain or duplicate a kept form), status 302, POST, Client.DoRedirects max 5", n4, len(skip)),
 			func(yield func(*c20Case) bool) {
 				var cs c20Case
-				seqx.Product([]int{nl, nl, nl, nl}, -1, func(x []int) bool {
+				seqx.Product([]int{n4, n4, n4, n4}, -1, func(x []int) bool {
 					cs = c20Case{API: "Client.DoRedirects", Max: 5, Init: "POST-body", URL: "plain", Spell: "canonical", Hops: cs.Hops[:0]}
 					for _, li := range x {
-						cs.Hops = append(cs.Hops, c20Hop{302, c20Locs[li].Loc})
+						cs.Hops = append(cs.Hops, c20Hop{302, l4[li]})
 					}
 					return yield(&cs)
 				})
